@@ -297,17 +297,30 @@ type decodePath struct {
 func decodeConstructor(p *Prog, fn *ssa.Function) ([]decodePath, string) {
 	// predicates: second results of the first decoding attempt (calls in the block that loads l[1], l[2])
 	var okVals []ssa.Value
+	// composite decoders of the same package (colAndConst(a, b) = colIdentifier(a) + newConstExpr(b)) are
+	// evaluated in place, so that each part keeps its own list position and its own ok
+	composite := func(callee *ssa.Function) bool {
+		return callee != nil && callee.Pkg == fn.Pkg && callee.Blocks != nil && len(callee.Params) >= 2 && callee.Signature.Recv() == nil
+	}
+	scan := []*ssa.Function{fn}
 	eachInstr(fn, func(in ssa.Instruction) {
-		ex, ok := in.(*ssa.Extract)
-		if !ok || ex.Index != 1 {
-			return
-		}
-		if call, ok := ex.Tuple.(*ssa.Call); ok && call.Call.StaticCallee() != nil {
-			if b, ok := ex.Type().Underlying().(*types.Basic); ok && b.Kind() == types.Bool {
-				okVals = append(okVals, ex)
-			}
+		if call, ok := in.(*ssa.Call); ok && composite(call.Call.StaticCallee()) {
+			scan = append(scan, call.Call.StaticCallee())
 		}
 	})
+	for _, sf := range scan {
+		eachInstr(sf, func(in ssa.Instruction) {
+			ex, ok := in.(*ssa.Extract)
+			if !ok || ex.Index == 0 {
+				return
+			}
+			if call, ok := ex.Tuple.(*ssa.Call); ok && call.Call.StaticCallee() != nil && !composite(call.Call.StaticCallee()) && ex.Index == call.Call.Signature().Results().Len()-1 {
+				if b, ok := ex.Type().Underlying().(*types.Basic); ok && b.Kind() == types.Bool {
+					okVals = append(okVals, ex)
+				}
+			}
+		})
+	}
 	var list ssa.Value
 	eachInstr(fn, func(in ssa.Instruction) {
 		if ta, ok := in.(*ssa.TypeAssert); ok && ta.CommaOk {
@@ -323,48 +336,77 @@ func decodeConstructor(p *Prog, fn *ssa.Function) ([]decodePath, string) {
 	if list == nil {
 		return nil, "no []interface{} decoding found"
 	}
-	// which ok values are used as branch conditions (directly or through phis)? enumerate those
-	var preds []ssa.Value
+	// The worlds range over semantic predicates "decoder D accepts list position k" (discovered while evaluating:
+	// the same decoder call inside a helper that is entered twice stands for two predicates).
+	isOk := map[ssa.Value]bool{}
 	for _, o := range okVals {
-		used := false
-		seen := map[ssa.Value]bool{}
-		var walk func(v ssa.Value)
-		walk = func(v ssa.Value) {
-			if seen[v] {
-				return
-			}
-			seen[v] = true
-			for _, r := range *v.Referrers() {
-				switch t := r.(type) {
-				case *ssa.If:
-					used = true
-				case *ssa.UnOp:
-					walk(t)
-				}
-			}
-		}
-		walk(o)
-		if used {
-			preds = append(preds, o)
-		}
+		isOk[o] = true
 	}
-	if len(preds) > 6 {
-		return nil, "too many decoding predicates"
-	}
+	var preds []string
+	known := map[string]bool{}
 	var out []decodePath
 	seenSig := map[string]bool{}
-	for v := 0; v < 1<<len(preds); v++ {
-		val := map[ssa.Value]bool{}
+	grew := false
+	for v := 0; v < 1<<uint(len(preds)); v++ {
+		if len(preds) > 7 {
+			return nil, "too many decoding predicates"
+		}
+		if grew {
+			// a predicate was met for the first time: enumerate again over the larger set
+			grew, out, seenSig, v = false, nil, map[string]bool{}, 0
+		}
+		val := map[string]bool{}
 		for i, pr := range preds {
-			val[pr] = v&(1<<i) != 0
+			val[pr] = v&(1<<uint(i)) != 0
 		}
 		pe := &pathExec{fn: fn}
+		pe.inline = composite
+		predOf := func(x ssa.Value) (string, bool) {
+			ex, ok := x.(*ssa.Extract)
+			if !ok || !isOk[x] {
+				return "", false
+			}
+			call := ex.Tuple.(*ssa.Call)
+			key := call.Call.StaticCallee().Name() + "@"
+			pos := map[int]bool{}
+			for _, a := range call.Call.Args {
+				for k := range listOrigins(pe, a, list) {
+					pos[k] = true
+				}
+			}
+			return key + posSet(pos), true
+		}
+		worldAtom := func(x ssa.Value) (bool, bool) {
+			if k, ok := predOf(x); ok {
+				if !known[k] {
+					known[k] = true
+					preds = append(preds, k)
+					grew = true
+				}
+				b, have := val[k]
+				if !have {
+					b = true
+				}
+				return b, true
+			}
+			return false, false
+		}
+		pe.evalBoolResult = func(v ssa.Value) (bool, bool) { return pe.evalBool(v, worldAtom) }
 		pe.oracle = func(pe *pathExec, cond ssa.Value) (bool, bool) {
 			return pe.evalBool(cond, func(x ssa.Value) (bool, bool) {
-				if b, ok := val[x]; ok {
+				if b, ok := worldAtom(x); ok {
 					return b, true
 				}
-				// shape tests (type assertion ok, len == n) and later attempts succeed
+				// shape tests (type assertion ok, len == n) and later attempts succeed: the list has exactly the
+				// length it is compared with
+				if b, ok := x.(*ssa.BinOp); ok {
+					if call, isCall := b.X.(*ssa.Call); isCall && builtinName(call) == "len" {
+						switch b.Op {
+						case token.NEQ, token.LSS, token.GTR:
+							return false, true
+						}
+					}
+				}
 				return true, true
 			})
 		}
@@ -413,6 +455,14 @@ func decodeConstructor(p *Prog, fn *ssa.Function) ([]decodePath, string) {
 				sig = append(sig, name+"=false")
 				continue
 			}
+			if basicKind(fv.Type()) == types.Bool {
+				// a flag computed from the decoders' ok results (`constFirst := !argsOk`): its value in this world
+				if b, known := pe.evalBool(fv, worldAtom); known {
+					dp.bools[name] = b
+					sig = append(sig, fmt.Sprintf("%s=%v", name, b))
+					continue
+				}
+			}
 			o := listOrigins(pe, fv, list)
 			delete(o, 0)
 			dp.fields[name] = o
@@ -425,6 +475,9 @@ func decodeConstructor(p *Prog, fn *ssa.Function) ([]decodePath, string) {
 		seenSig[s] = true
 		dp.descr = s
 		out = append(out, dp)
+	}
+	if grew {
+		return nil, "the set of decoding predicates did not stabilise"
 	}
 	return out, ""
 }
@@ -969,6 +1022,40 @@ func checkDrop(p *Prog, fn *ssa.Function, name ssa.Value, frame *ssa.Parameter, 
 			if nameIdx < 0 || frameIdx < 0 || nameIdx >= len(h.Params) || frameIdx >= len(h.Params) {
 				return
 			}
+			// the helper may hand back the list of names to drop instead of dropping them itself: then the list
+			// must reach a Drop here, and the helper puts the name on it only if absent from the original frame
+			returnsList := false
+			hreach := forwardReach(h.Params[nameIdx])
+			eachInstr(h, func(i3 ssa.Instruction) {
+				if r, ok := i3.(*ssa.Return); ok {
+					for _, rv := range r.Results {
+						if hreach[rv] {
+							returnsList = true
+						}
+					}
+				}
+			})
+			if returnsList {
+				creach := forwardReach(hc)
+				dropped := false
+				eachInstr(fn, func(i3 ssa.Instruction) {
+					if dc, ok := i3.(*ssa.Call); ok && dc.Call.StaticCallee() == drop {
+						for _, a := range dc.Call.Args[1:] {
+							if creach[a] {
+								dropped = true
+							}
+						}
+					}
+				})
+				if !dropped {
+					st := Violated
+					verdict, vmsg = &st, "the list of temporary names built by "+h.Name()+" never reaches a Drop: a temporary column survives in the result of Eval"
+					return
+				}
+				st, m := checkDropCommits(p, h, hreach, h.Params[frameIdx], fromConst, contains)
+				verdict, vmsg = &st, "through helper "+h.Name()+" (returns the drop list): "+m
+				return
+			}
 			st, m := checkDrop(p, h, h.Params[nameIdx], h.Params[frameIdx], fromConst, drop, contains, depth+1)
 			verdict, vmsg = &st, "through helper "+h.Name()+": "+m
 		})
@@ -979,6 +1066,11 @@ func checkDrop(p *Prog, fn *ssa.Function, name ssa.Value, frame *ssa.Parameter, 
 	if len(dropCalls) == 0 {
 		return Violated, "the column named by the sub-expression's result never reaches a Drop: a temporary column survives in the result of Eval"
 	}
+	return checkDropCommits(p, fn, reach, frame, fromConst, contains)
+}
+
+// checkDropCommits: where the name is put on the drop list in fn, that happens only under `!frame.Contains(name)`.
+func checkDropCommits(p *Prog, fn *ssa.Function, reach map[ssa.Value]bool, frame *ssa.Parameter, fromConst bool, contains *ssa.Function) (Status, string) {
 	if fromConst {
 		return Discharged, "constant expressions always create a temporary column; it is dropped"
 	}
